@@ -200,8 +200,9 @@ def ob_prefix():
         vals = [None] * 3
         for i in range(3):
             if present[i]:
-                vals[i] = PFX[choose(3, 'pfx%d' % i)]
-                dicts[i][k] = vals[i]
+                canon = PFX[choose(3, 'pfx%d' % i)]
+                vals[i] = canon                                             # the effective prefix is the canonical spelling ...
+                dicts[i][k] = canon + ['', '/'][choose(2, 'slash%d' % i)]   # ... whatever the spelling given (a trailing slash is dropped)
         sysconf_given = decide(sym_bool('sysconfdir_given'))
         if sysconf_given: dicts[0][O.OptionKey('sysconfdir')] = 'myetc'
         proj, mach, cmd = dicts
